@@ -1,6 +1,6 @@
 (** Protocol operations for C16 (see Lib/Val.v). *)
 From Coq Require Import ZArith List Bool String.
-From Low Require Import Lib.Bits Lib.BitSeq Lib.Lex Lib.Bytes Lib.Val Model.Sigbits Spec.SigbitsSpec Spec.SigbitsSpec16x.
+From Low Require Import Lib.Bits Lib.BitSeq Lib.Lex Lib.Bytes Lib.Val Model.Sigbits Model.SigbitsQueries Spec.SigbitsSpec Spec.SigbitsSpec16x.
 Import ListNotations.
 Open Scope string_scope.
 Open Scope Z_scope.
@@ -21,17 +21,6 @@ Fixpoint as_qs_aux (l : list val) : option (list (Z * Z * Z)) :=
   end.
 Definition as_qs (v : val) : option (list (Z * Z * Z)) :=
   match v with VL l => as_qs_aux l | _ => None end.
-
-(** one SigBits object, a list of queries; [None] when a query panics *)
-Fixpoint run_queries (sb : SigBits) (qs : list (Z * Z * Z)) : option (list (Z * list Z)) :=
-  match qs with
-  | [] => Some []
-  | (s, e, m) :: t =>
-      match CountPrefixes sb s e m, run_queries sb t with
-      | Some r, Some rs => Some (r :: rs)
-      | _, _ => None
-      end
-  end.
 
 (** the run on a counter-described key set *)
 Definition c16_counter_run (a : list val) : val :=
